@@ -821,6 +821,13 @@ impl Xot {
                 "Cannot wrap document node".to_string(),
             ));
         }
+        // attribute and namespace nodes cannot be children of the wrapper;
+        // refuse before the node is detached
+        if self.value(node).value_category() != ValueCategory::Normal {
+            return Err(Error::InvalidOperation(
+                "Cannot wrap attribute or namespace node".to_string(),
+            ));
+        }
         // we forbid wrapping nodes under the document node too unless it's the
         // document element
         if self.has_document_parent(node) && !self.is_document_element(node) {
